@@ -57,6 +57,78 @@ def lit_py(e):
     return ("opaque",)
 
 
+def go_quote_ascii(t):
+    """strconv.Quote on printable 7-bit text (None when the text needs anything else)"""
+    out = '"'
+    for ch in t:
+        o = ord(ch)
+        if ch in '"\\':
+            out += "\\" + ch
+        elif ch == "\n":
+            out += "\\n"
+        elif ch == "\t":
+            out += "\\t"
+        elif 32 <= o < 127:
+            out += ch
+        else:
+            return None
+    return out + '"'
+
+
+def go_tostring(v):
+    """value.toString of a python JSON view WITHOUT objects (objects with inherited members are the known finding
+    C02-tostring): None when not computable here"""
+    if v is None:
+        return ""
+    if v is True:
+        return "true"
+    if v is False:
+        return "false"
+    if isinstance(v, tuple) and v and v[0] == "num":
+        return v[1]
+    if isinstance(v, str):
+        return v
+    if isinstance(v, list):
+        parts = []
+        for x in v:
+            t = go_tostring(x)
+            q = None if t is None else go_quote_ascii(t)
+            if q is None:
+                return None
+            parts.append(q)
+        return ",".join(parts)
+    return None
+
+
+def go_json(v):
+    """encoding/json text of a python JSON view (keys sorted, HTML escaping): None when not computable here"""
+    import json as _json
+    if v is None:
+        return "null"
+    if v is True:
+        return "true"
+    if v is False:
+        return "false"
+    if isinstance(v, tuple) and v and v[0] == "num":
+        return v[1]
+    if isinstance(v, str):
+        if any(ord(ch) < 32 and ch not in "\n\t\r" or ord(ch) > 126 for ch in v):
+            return None
+        return _json.dumps(v).replace("<", "\\u003c").replace(">", "\\u003e").replace("&", "\\u0026")
+    if isinstance(v, list):
+        parts = [go_json(x) for x in v]
+        return None if any(x is None for x in parts) else "[" + ",".join(parts) + "]"
+    if isinstance(v, dict):
+        parts = []
+        for k in sorted(v, key=lambda k: k.encode("utf-8")):
+            kj, vj = go_json(k), go_json(v[k])
+            if kj is None or vj is None:
+                return None
+            parts.append(kj + ":" + vj)
+        return "{" + ",".join(parts) + "}"
+    return None
+
+
 def paths_of(v, prefix=()):
     """all (path, value) pairs of a python JSON view"""
     yield prefix, v
@@ -66,6 +138,14 @@ def paths_of(v, prefix=()):
     elif isinstance(v, list):
         for i, x in enumerate(v):
             yield from paths_of(x, prefix + (("i", i),))
+
+
+def mk_path_plain(p):
+    return tuple(v for _, v in p)
+
+
+def path_plain(accs):
+    return tuple(v for _, v in accs)
 
 
 def mk_path(rng, p):
@@ -81,6 +161,17 @@ def mk_path(rng, p):
     return out
 
 
+FROMJSON_TEXTS = [
+    (' {"a" : [1, 2.50 ,1e3] , "b":{ } }\n', ("obj", [("a", ("arr", [("num", "1"), ("num", "2.50"), ("num", "1e3")])), ("b", ("obj", []))])),
+    ('"x\\u0041\\n\\t\\"\\\\\\/"', ("str", 'xA\n\t"\\/')),
+    ('12345678901234567890123', ("num", "12345678901234567890123")),
+    ('-0', ("num", "-0")), ('1E-7', ("num", "1E-7")), ('[]', ("arr", [])), ('{}', ("obj", [])), ('null', ("null",)),
+    ('{"k":1,"k":2}', ("obj", [("k", ("num", "2"))])),
+    ('[true,false,null,"",0]', ("arr", [("bool", True), ("bool", False), ("null",), ("str", ""), ("num", "0")])),
+    ('{"a":{"b":{"c":[{"d":null}]}}}', ("obj", [("a", ("obj", [("b", ("obj", [("c", ("arr", [("obj", [("d", ("null",))])]))]))]))])),
+    ('  42  ', ("num", "42")), ('01', None), ('{"a":}', None), ('[1,]', None), ("'x'", None), ('{"a":1} trailing', None), ('', None)]
+
+
 def gen_program(rng, thorough):
     keys = ["a", "b", "c", "k.dot", "k q"]
     nkeys = 3 + rng.below(3)
@@ -92,6 +183,8 @@ def gen_program(rng, thorough):
     view = merged_view(layers)
     targets = [(p, v) for p, v in paths_of(view) if p]
     str_targets = [(p, v) for p, v in targets if isinstance(v, str)]
+    # what an interpolation may reference: strings, and non-string scalars / arrays with their Go string form
+    interp_targets = [(p, go_tostring(v)) for p, v in targets if not isinstance(v, dict) and go_tostring(v) is not None]
     claims = []
     derived = []
 
@@ -114,8 +207,8 @@ def gen_program(rng, thorough):
         if k == 2:
             parts, exp = [], ""
             for _ in range(1 + rng.below(3)):
-                if rng.chance(1, 2) and str_targets:
-                    p, tgt = ref(str_targets, bad_ok=False)
+                if rng.chance(1, 2) and interp_targets:
+                    p, tgt = ref(interp_targets, bad_ok=False)
                     t = rng.choice(["", "-", "pre ", "$", "$$"])
                     parts.append((t, p))
                     exp += t + tgt[1]
@@ -123,7 +216,13 @@ def gen_program(rng, thorough):
                     t = rng.choice(["lit", " ", "$"])
                     parts.append((t, None))
                     exp += t
-            return G.norm_interp(parts), exp
+            e = G.norm_interp(parts)
+            if e[0] == "sym" and not any(pp == tuple(pth) or True for pp, _ in str_targets if False):
+                # "${x}" alone is a reference, not a string: its value is x itself (claimed as a string only for string targets)
+                tv = [v for pth2, v in targets if mk_path_plain(pth2) == path_plain(e[1])]
+                if not tv or not isinstance(tv[0], str):
+                    exp = None
+            return e, exp
         if k == 3:
             d = rng.choice([",", "", "::"])
             subs = [string_expr(depth - 1) for _ in range(rng.below(4))]
@@ -157,6 +256,8 @@ def gen_program(rng, thorough):
         elif k == 4 and targets:
             p, tgt = ref(targets, bad_ok=False)
             derived.append((dk, ("tojson", ("sym", p))))
+            if go_json(tgt[1]) is not None:
+                claims.append("(const %s %s)" % (G.sx(dk), G.sx(go_json(tgt[1]))))
         elif k == 5 and targets:
             # toString of a top-level key (claim: string form of the final value)
             tops = [(p, v) for p, v in targets if len(p) == 1]
@@ -184,6 +285,14 @@ def gen_program(rng, thorough):
                                [("name", "context"), ("name", "currentEnvironment"), ("name", "name")],
                                [("name", "imports"), ("name", "base")] if has_base else [("name", "context"), ("name", "nope")]])
             derived.append((dk, ("sym", root)))
+            if root[0][1] == "context" and root[1][1] in ("rootEnvironment", "currentEnvironment"):
+                claims.append("(const %s %s)" % (G.sx(dk), G.sx("root")))
+        elif k == 11 and rng.chance(1, 2):
+            # fn::fromJSON of hand-written JSON text: whitespace, escapes, exponents, big integers, duplicate keys
+            txt, lit = rng.choice(FROMJSON_TEXTS)
+            derived.append((dk, ("fromjson", ("str", txt))))
+            if lit is not None:
+                claims.append("(lit %s %s)" % (G.sx(dk), G.w_expr(lit)))
         else:
             e, x = string_expr(3)
             derived.append((dk, e))
